@@ -30,17 +30,29 @@ type Result struct {
 	Drift       []string       `json:"drift,omitempty"`
 
 	distinct map[uint64]struct{}
+	perClass map[string]int
 }
 
-const maxCandidates = 400
+const maxCandidates = 3000
+const perClassCap = 40
 
 func newResult() *Result {
 	return &Result{distinct: map[uint64]struct{}{}, Extra: map[string]any{}, Samples: []any{}, Candidates: []Candidate{}}
 }
 
+// addCandidate keeps at most perClassCap candidates per signature class so that
+// one frequent class cannot hide another behind the total cap.
 func (r *Result) addCandidate(c Candidate) {
 	r.NCandidates++
-	if len(r.Candidates) < maxCandidates {
+	class, _ := c.Sig["class"].(string)
+	if d, ok := c.Sig["deviation"].(string); ok {
+		class = "dev:" + d
+	}
+	if r.perClass == nil {
+		r.perClass = map[string]int{}
+	}
+	r.perClass[class]++
+	if r.perClass[class] <= perClassCap && len(r.Candidates) < maxCandidates {
 		r.Candidates = append(r.Candidates, c)
 	}
 }
